@@ -267,8 +267,8 @@ def C21_atomic_full : Prop :=
 /-- MessageOptions-like message 0 with `features` (message 1, no fields of its own) -/
 def aSchema : Schema :=
   { enums := [],
-    msgs := [⟨"O", "O", "", [⟨"features", 12, .msg 1, .opt, false, true, none, [], 0, 0, "O.features", ""⟩]⟩,
-             ⟨"F", "F", "", []⟩],
+    msgs := [⟨"O", "O", "", [⟨"features", 12, .msg 1, .opt, false, true, none, [], 0, 0, "O.features", "", false, false⟩], false⟩,
+             ⟨"F", "F", "", [], false⟩],
     exts := [], optIdx := [0, 0, 0, 0, 0, 0, 0, 0, 0] }
 
 /-- `option features.(pkg.ext).x = 1;` -/
@@ -626,10 +626,10 @@ theorem unlinked_atomic_partial (s : Schema) (target edition mi : Nat) (stmts : 
 /-- MessageOptions-like message with `deprecated` (bool) and `features` -/
 def bSchema : Schema :=
   { enums := [],
-    msgs := [⟨"O", "O", "", [⟨"deprecated", 3, .bool, .opt, false, true, none, [], 0, 0, "O.deprecated", ""⟩,
-                              ⟨"features", 12, .msg 1, .opt, false, true, none, [], 0, 0, "O.features", ""⟩]⟩,
-             ⟨"F", "F", "", []⟩],
-    exts := [⟨"x", 50000, .i32, .opt, false, true, none, [], 0, 0, "pkg.x", "O"⟩],
+    msgs := [⟨"O", "O", "", [⟨"deprecated", 3, .bool, .opt, false, true, none, [], 0, 0, "O.deprecated", "", false, false⟩,
+                              ⟨"features", 12, .msg 1, .opt, false, true, none, [], 0, 0, "O.features", "", false, false⟩], false⟩,
+             ⟨"F", "F", "", [], false⟩],
+    exts := [⟨"x", 50000, .i32, .opt, false, true, none, [], 0, 0, "pkg.x", "O", false, false⟩],
     optIdx := [0, 0, 0, 0, 0, 0, 0, 0, 0] }
 
 def bStmts : List Stmt :=
